@@ -20,7 +20,9 @@ Presets == {"none", "future", "past"}
 AtHash(f) == f \in {"code", "implicit_idt_token", "hybrid_code_idt_token", "refresh", "refresh_hybrid", "device"}   \* an access token is delivered in the same response
 CHash(f) == f \in {"hybrid_code_idt", "hybrid_code_idt_token"}                                    \* a code is delivered in the same response
 
-\* session_aud: the application's session already names an audience of its own; the requesting client is named all the same
+\* session_aud: the application's session already names an audience of its own; the requesting client is named all the same.
+\* The same sessions carry custom claims NAMED nonce / at_hash / c_hash: they never stand in for the claims the server computes
+\* (at_hash / c_hash / nonce are present exactly when this table says so, with the computed values)
 RowsA == { [tbl |-> "A", flow |-> f, openid |-> o, subject |-> s, key |-> k, preset |-> p, session_aud |-> sa,
             issued |-> o /\ s # "" /\ p # "past",
             alg |-> Alg(k), hash_bits |-> HashBits(k), at_hash |-> AtHash(f), c_hash |-> CHash(f),
